@@ -147,7 +147,7 @@ func init() {
 			"nsModel (gen/nsprog.go) is the specification: php.net 'Name resolution rules' for compile-time resolution; function/constant fallback to the global namespace is a run-time matter and not part of the map",
 			"a special name may be absent from the map or mapped to itself in any letter case",
 		},
-		Plan: func(p core.Params) int { return p.Pick(200000, 1500000) },
+		Plan: func(p core.Params) int { return p.Pick(200000, 5000000) },
 		Run: func(c *core.Ctx, idx int) {
 			if idx < c.P.Pick(3, 30) {
 				c14CLI(c, idx)
